@@ -269,6 +269,23 @@ def extra_schema(package, byte_order):
     return S
 
 
+def enum_schema():
+    """enums over the wide encodings (visiting an enum value compares in the width of the
+    encoding: values that differ only above bit 31, negative values)"""
+    S = base_schema("ev64", "littleEndian")
+    S["types"] += [
+        {"kind": "enum", "name": "eu64", "enc": "uint64", "values": [{"name": "One", "value": "1"}, {"name": "Big", "value": "1099511627776"},
+                                                                     {"name": "Top", "value": "18446744073709551614"}]},
+        {"kind": "enum", "name": "ei64", "enc": "int64", "values": [{"name": "Neg", "value": "-1"}, {"name": "Pos", "value": "1"},
+                                                                    {"name": "Low", "value": "-9223372036854775807"}]},
+        {"kind": "enum", "name": "eu32", "enc": "uint32", "values": [{"name": "A", "value": "1"}, {"name": "B", "value": "4294967294"}]},
+        {"kind": "enum", "name": "ei32", "enc": "int32", "values": [{"name": "N", "value": "-2"}, {"name": "P", "value": "65536"}]},
+        {"kind": "enum", "name": "ei8", "enc": "int8", "values": [{"name": "M", "value": "-1"}, {"name": "Z", "value": "0"}]},
+    ]
+    S["messages"].append(G("em", 1, fields=[F("a", 1, "eu64"), F("b", 2, "ei64"), F("c", 3, "eu32"), F("d", 4, "ei32"), F("e", 5, "ei8")]))
+    return S
+
+
 def view_schemas(tier="quick"):
     base = [view_schema("vle", "littleEndian"), view_schema("vbe", "bigEndian")]
     if tier == "thorough":
